@@ -431,3 +431,15 @@ STATIC = list(globals().get("STATIC", [])) + [
                  {"invalid": -1, "initialized": 0, "running": 5, "suspended": 6, "pre_sleep": 7, "sleeping": 8, "stopping": 11, "terminating": 12, "stopped": 13}),
     _census.sites("runtime stop_done_ writes", [RTCPP], r"\bstop_done_\s*=(?!=)", 1, "notify_finalize only; constructors initialise it to false"),
 ]
+
+
+# ---- C19 units reused (added after seeded change C05-2 was missed): "all queued work runs after resume()" depends on the pool's
+# ---- resume path; the units are the ones of specs/C19 (same templates, same contracts), run here as part of C05 as well
+_c19 = {}
+exec(compile(open("/verif/specs/C19/spec.py").read(), "/verif/specs/C19/spec.py", "exec"), _c19)
+for _u in _c19["UNITS"]:
+    if _u.name in ("state.resume_pu_direct", "state.resume_internal", "state.suspend_internal", "state.suspend_pu_internal", "state.sched_suspend", "state.sched_resume"):
+        _u.name = "c19." + _u.name
+        _u.template = "../C19/" + _u.template
+        UNITS.append(_u)
+META["trusted_base"] = list(META.get("trusted_base", [])) + ["units c19.* are the C19 units of the same name (specs/C19/state.c, state.h) with their trusted base"]
